@@ -77,6 +77,18 @@ def write_case(ctx, seed):
     fmt, div, tracks = genfile.rand_file_events(rng, EOT_MODES)
     case = lambda: {'kind': 'write', 'seed': seed}  # noqa: E731
     mid = genfile.midifile_of(fmt, div, tracks)
+    if rng.random() < 0.15:
+        # the same values as bool / int subclass / IntEnum member / numpy-like Integral
+        from .. import gen
+        for tr in mid.tracks:
+            for msg in tr:
+                for k, v in list(vars(msg).items()):
+                    if type(v) is int and k != 'type_byte':
+                        alts = gen.exotic_ints(v)
+                        try:
+                            setattr(msg, k, alts[rng.randrange(len(alts))])
+                        except Exception as exc:
+                            ctx.fail('written bytes conformant', f'exotic-int-rejected:{type(exc).__name__}', case, f'{k}: {exc}')
     buf = io.BytesIO()
     try:
         mid.save(file=buf)
